@@ -14,7 +14,7 @@ Local Open Scope Z_scope.
 
 (** result of loadlistfd(openat(controldir_fd, "tlsclients"), &clients, checkaddr) *)
 Inductive loadres :=
-| LErr (errno : Z)                 (* < 0: unreadable, out of memory, ...; errno as left behind *)
+| LErr (errno : N)                 (* < 0: unreadable, out of memory, ...; errno as left behind (ISO C: errno values are positive; 0 if nothing set it) *)
 | LNull                            (* 0 and clients == NULL: no file, empty file, only invalid entries *)
 | LList (cl : list bytes).         (* 0 and a NULL terminated array of C strings *)
 
@@ -127,7 +127,7 @@ Definition tls_verify (e : env) (st : state) : outcome * state * list N :=
   else
     let st1 := {| verified := true; tlsclient := tlsclient st; relay := relay st |} in
     match e_list e with
-    | LErr en => (Ret (- en), st1, [LL])
+    | LErr en => (Ret (- Z.of_N en), st1, [LL])
     | LNull => (Ret 0, st1, [LL])
     | LList cl =>
         if negb (e_ca e) then (Ret 0, st1, [LL; LA])
